@@ -651,6 +651,21 @@ func (s *Sched) run() Verdict {
 			if s.confirm() {
 				continue
 			}
+			// Nobody can run, as far as the wait reasons of the goroutines tell. A
+			// real deadlock stays; a task that was only caught in a short wait of
+			// the runtime or of a library below the one under test (seen once, under
+			// load, as a deadlock of two tasks in the ID caches) moves on. Look again
+			// for half a second of real time before saying so.
+			moved := false
+			for t0 := RealTicks.Load(); RealTicks.Load()-t0 < 50 && !moved; {
+				for k := 0; k < 200; k++ {
+					runtime.Gosched()
+				}
+				moved = s.confirm()
+			}
+			if moved {
+				continue
+			}
 			if sleepers == 0 && timers == 0 {
 				return VerdictDeadlock
 			}
